@@ -44,6 +44,7 @@ CONFIG = {
     'must_sig': ['logic:CTL', 'logic:LTL', 'logic:CTLS', 'root:A.R', 'root:E.R',
                  'root:A.U', 'root:R', 'root:G', 'root:imply', 'root:and',
                  'lnot:stripped', 'lnot:wrapped', 'kind:state', 'kind:path',
+                 'family:temporal_chains',
                  'kind:quantified_path',
                  'site:pyModelChecking.CTL.model_checking:*',
                  'site:pyModelChecking.LTL.model_checking:*'],
@@ -333,7 +334,29 @@ def run(ctx):
             for op in ('U', 'R', 'and', 'or', 'imply'):
                 qpaths.append((op, a, b))
                 qpaths.append((op, b, a))
-    work = [('CTLS', t) for t in qpaths] + [('CTL', t) for t in C1 + C2] + [('LTL', t) for t in P1 + P2] + \
+    # every chain of three temporal/negation operators over atoms
+    chains = []
+    un = ('X', 'F', 'G', 'not')
+
+    def ops(a, b):
+        out = [(o, a) for o in un]
+        out += [('U', a, b), ('U', b, a), ('R', a, b), ('R', b, a)]
+        return out
+    lvl1 = ops(p_, q_)
+    for g1 in lvl1:
+        for g2 in ops(g1, q_):
+            if g2[0] == 'not' and g1[0] == 'not':
+                continue
+            for g3 in ops(g2, p_):
+                chains.append(g3)
+    if ctx.quick:
+        chains = gen.rng(ctx.seed, PROP, 'chains').sample(
+            chains, min(700, len(chains)))
+    LOG.sig['family:temporal_chains'] += len(chains)
+    work = [('LTL', t) for t in chains] + \
+        [('CTLS', t) for t in chains[::3]] + \
+        [('CTLS', ('A', t)) for t in chains[1::7]] + \
+        [('CTLS', t) for t in qpaths] + [('CTL', t) for t in C1 + C2] + [('LTL', t) for t in P1 + P2] + \
         [('CTLS', t) for t in P1 + P2[:600] + fam + C1]
     for i, (logic, t) in enumerate(work):
         if ctx.mine(i):
